@@ -1,4 +1,5 @@
 import Vegeta.Model.Dial
+import Vegeta.Model.DialCompose
 /-! Driver operations of property C18 (ops are named `c18.<name>`).
 
 * `c18.foe <nIds> <fam>* <n> <id>*`        fam: 4 | 6 | 0 (invalid)   → `ok <len(result)> <array afterwards>`
@@ -11,6 +12,13 @@ import Vegeta.Model.Dial
 * `c18.longrun <nIds> <fam>* <nDials> (<n> <j>*)*`   run the DNS-caching dial `nDials` times on the
       cache entry `[0, …, nIds-1]` with the given Fisher–Yates choices → `ok <distinct IPv4 ids left> <distinct IPv6 ids left>`
       (the addresses an observer sees in use in the long run)
+* `c18.compose <n> <opt>* <svcHost> <svcPort> <hostC> <port> <ipA> <ipB>`   options applied in order to a fresh
+      attacker (opt: L | K0 | K1 | H0 | H1 | U0 | U1 | D0 (ttl 0) | D1 (ttl < 0) | C0 (map given) | C1 (empty map) | B | O),
+      then two probe dials, `svcHost:svcPort` and `hostC:port`, through the resulting dial function, where the DNS
+      answers `hostC ↦ ipA` and the connect-to map is `svcHost:svcPort ↦ hostC:port`, `ipA:port ↦ ipB:port`
+      → `panic` | `ok 0` (transport swapped: no dial function to look at) |
+        `ok 1 <base> | A <what the base function is asked to dial> | B <…>`  (custom base: the address; dialer: the
+        listener the address leads to; unix: `unix`)
 -/
 namespace Vegeta.Driver.C18
 open Vegeta.Go Vegeta.Go.Proto Vegeta.Model.Dial
@@ -82,6 +90,46 @@ def handle (op : String) (args : List String) : Option String :=
     let final := (dialMany fam choices (List.range tbl.length)).2
     let distinct (f : Family) := ((List.range tbl.length).filter (fun i => fam i = f ∧ final.contains i)).length
     pure ("ok " ++ toString (distinct .v4) ++ " " ++ toString (distinct .v6))
+  | "c18.compose" => do
+    let ((opts, sh, sp, hc, p, ipA, ipB), _) ← (do
+      let os ← listOf tok
+      let sh ← bytes; let sp ← bytes; let hc ← bytes; let p ← bytes; let a ← bytes; let b ← bytes
+      pure (os, sh, sp, hc, p, a, b)).run args
+    let parse : String → Option Opt := fun t => match t with
+      | "L" => some .localAddr | "K0" => some (.keepAlive false) | "K1" => some (.keepAlive true)
+      | "H0" => some (.h2c false) | "H1" => some (.h2c true) | "U0" => some (.unixSocket false) | "U1" => some (.unixSocket true)
+      | "D0" => some (.dnsCaching false) | "D1" => some (.dnsCaching true) | "C0" => some (.connectTo false) | "C1" => some (.connectTo true)
+      | "B" => some .baseDial | "O" => some .other | _ => none
+    let os ← opts.mapM parse
+    match applyAll TrState.init os with
+    | .panic => pure "panic"
+    | .error _ => pure "err"
+    | .ok st =>
+      if !st.isHTTP then pure "ok 0" else
+      let w : World := { answers := [(hc, [ipA])], fam := [(ipA, .v4), (ipB, .v4)] }
+      let m : List (HP × (List HP × Nat)) :=
+        [({ host := sh, port := sp }, ([{ host := hc, port := p }], 0)), ({ host := ipA, port := p }, ([{ host := ipB, port := p }], 0))]
+      let layers : List Layer := st.wraps.map fun x => match x with
+        | .dns => Layer.dns []
+        | .connectTo => Layer.connectTo m
+      let cls (a : HP) : String := match st.base with
+        | .custom => hexEncode a.host ++ ":" ++ hexEncode a.port
+        | .unix => "unix"
+        | .dialer =>
+          if a.host = ipA ∨ a.host = ipB then "L" ++ hexEncode a.host
+          else match assocGet w.answers a.host with
+            | some (ip :: _) => "L" ++ hexEncode ip
+            | _ => "none"
+      let show1 (out : List HP) : String := String.intercalate "," (out.map cls)
+      let baseName := match st.base with | .custom => "custom" | .unix => "unix" | .dialer => "dialer"
+      let (ra, layers') := match dialVia w layers [] { host := sh, port := sp } with
+        | .ok (out, ls, _) => (show1 out, ls)
+        | _ => ("-", layers)
+      let rb := match dialVia w layers' [] { host := hc, port := p } with
+        | .ok (out, _, _) => show1 out
+        | _ => "-"
+      let clean (x : String) := if x == "" || x == "none" then "-" else x
+      pure ("ok 1 " ++ baseName ++ " | A " ++ clean ra ++ " | B " ++ clean rb)
   | _ => none
 
 end Vegeta.Driver.C18
